@@ -13,6 +13,9 @@ case kinds (field k):
   finger  {p, n, form}                            -> fp
   gate    {scripts, pay, addr_script, stake, own, offer, ctx, datum_hash, inline, datum}
                                                   -> res: ['accept', script index, ref id|None] | ['refuse', kind]
+  seq     {kind: body|aux|native|datum, origin, <initial object>, ops: [...]}
+          ONE object lives through the operations (identifier reads, in-place edits, deep copy, re-encoding, re-wrap);
+                                                  -> init, steps: [{after, obs+cont (reads), val (edits carrying an object)}]
 """
 from _pre import *
 import cbor2
@@ -483,7 +486,227 @@ def h_gate(c):
             'datum_recorded': (datum is not None and len(b.datums) == 1) or (datum is None and len(b.datums) == 0)}
 
 
-HANDLERS = {'tx': h_tx, 'datum': h_datum, 'aux': h_aux, 'build': h_build, 'key': h_key, 'native': h_native,
+# ---------------------------------------------------------------- operation sequences on one living object
+import copy as _copy
+
+BODY_INT = ('ttl', 'validity_start', 'fee', 'total_collateral', 'donation', 'current_treasury_value')
+
+
+def _body_val(field, v):
+    from pycardano.hash import ScriptDataHash
+    if field in BODY_INT:
+        return v
+    if field == 'script_data_hash':
+        return ScriptDataHash(H(v))
+    if field == 'auxiliary_data_hash':
+        return AuxiliaryDataHash(H(v))
+    if field == 'network_id':
+        return NET[v]
+    if field == 'required_signers':
+        return [VerificationKeyHash(H(x)) for x in v]
+    if field in ('collateral', 'reference_inputs'):
+        return [TransactionInput.from_primitive([H(t), i]) for t, i in v]
+    raise ValueError(field)
+
+
+def _built_tx(c):
+    sk = K.PaymentSigningKey(bytes([7]) * 32)
+    addr = Address(sk.to_verification_key().hash(), network=Network.TESTNET)
+    utxos = [UTxO(txin(10 + i), TransactionOutput(addr, Value(5000000 + 1000000 * i))) for i in range(3)]
+    b = TransactionBuilder(Ctx({str(addr): utxos}))
+    b.add_input_address(addr)
+    for i in range(c.get('n_out', 1)):
+        b.add_output(TransactionOutput(KEY_ADDR, Value(1500000 + i)))
+    if c.get('aux') is not None:
+        b.auxiliary_data = mk_aux(c['aux'])
+    if c.get('ttl') is not None:
+        b.ttl = c['ttl']
+    return b.build_and_sign([sk], change_address=addr)
+
+
+def seq_body(c, prog):
+    sk = K.PaymentSigningKey(bytes([9]) * 32)
+    if c['origin'] == 'builder':
+        tx = _built_tx(c['build'])
+    else:
+        tx = Transaction(mk_body(c['body']), TransactionWitnessSet())
+        if c['origin'] == 'decoded':
+            tx = Transaction.from_cbor(tx.to_cbor())
+    init = tx.transaction_body.to_cbor().hex()
+    steps = prog['steps']
+    for o in c['ops']:
+        body = tx.transaction_body
+        st = {}
+        t = o[0]
+        prog['op'] = t
+        prog['copied'] = prog['copied'] or t == 'copy'
+        if t == 'read':
+            st['cont'] = tx.to_cbor().hex()                      # what would be shipped at this very moment
+            got = body.hash() if o[1] == 0 else body.id.payload if o[1] == 1 else tx.id.payload
+            st['obs'] = bytes(got).hex()
+        elif t == 'set':
+            setattr(body, o[1], _body_val(o[1], o[2]))
+        elif t == 'del':
+            setattr(body, o[1], None)
+        elif t == 'append_output':
+            body.outputs.append(mk_output(o[1]))
+            st['val'] = mk_output(o[1]).to_cbor().hex()          # a fresh, standalone serialization of the same output
+        elif t == 'append_input':
+            body.inputs.append(TransactionInput.from_primitive([H(o[1][0]), o[1][1]]))
+        elif t == 'coin':                                        # fee bump style: an amount adjusted in place
+            body.outputs[o[1]].amount.coin = o[2]
+            st['val'] = mk_output(o[3]).to_cbor().hex()
+        elif t == 'out_replace':
+            body.outputs[o[1]] = mk_output(o[2])
+            st['val'] = mk_output(o[2]).to_cbor().hex()
+        elif t == 'reenc':
+            tx = Transaction.from_cbor(tx.to_cbor())
+        elif t == 'copy':
+            tx = _copy.deepcopy(tx)
+        elif t == 'rewrap':
+            tx = Transaction(tx.transaction_body, TransactionWitnessSet(), tx.valid, tx.auxiliary_data)
+        elif t == 'neutral':                                     # re-sign: a new witness set over the current body
+            from pycardano.witness import VerificationKeyWitness
+            tx.transaction_witness_set = TransactionWitnessSet(
+                vkey_witnesses=[VerificationKeyWitness(sk.to_verification_key(), sk.sign(body.hash()))])
+        else:
+            raise ValueError(t)
+        st['after'] = tx.transaction_body.to_cbor().hex()
+        steps.append(st)
+    return {'init': init, 'steps': steps}
+
+
+def _aux_md(aux):
+    d = aux.data
+    return d if isinstance(d, Metadata) else d.metadata
+
+
+def seq_aux(c, prog):
+    aux = mk_aux(c['aux'])
+    if c['origin'] == 'decoded':
+        aux = AuxiliaryData.from_cbor(aux.to_cbor())
+
+    def container():
+        body = TransactionBody(inputs=[txin(1)], outputs=[TransactionOutput(KEY_ADDR, Value(2000000))], fee=170000,
+                               auxiliary_data_hash=AuxiliaryDataHash(bytes(32)))
+        return Transaction(body, TransactionWitnessSet(), True, aux).to_cbor().hex()
+    init = aux.to_cbor().hex()
+    steps = prog['steps']
+    for o in c['ops']:
+        st = {}
+        t = o[0]
+        prog['op'] = t
+        prog['copied'] = prog['copied'] or t == 'copy'
+        if t == 'read':
+            st['cont'] = container(); st['obs'] = aux.hash().payload.hex()
+        elif t == 'md_set':
+            _aux_md(aux)[o[1]] = mk_md(o[2])
+            st['val'] = cbor2.dumps(mk_md(o[2]), default=default_encoder).hex()
+        elif t == 'md_del':
+            del _aux_md(aux)[o[1]]
+        elif t == 'ns_append':
+            aux.data.native_scripts.append(mk_native(o[1]))
+        elif t == 'ns_set':
+            aux.data.native_scripts = [mk_native(x) for x in o[1]]
+        elif t == 'reenc':
+            aux = AuxiliaryData.from_cbor(aux.to_cbor())
+        elif t == 'copy':
+            aux = _copy.deepcopy(aux)
+        else:
+            raise ValueError(t)
+        st['after'] = aux.to_cbor().hex()
+        steps.append(st)
+    return {'init': init, 'steps': steps}
+
+
+def _n_node(s, path):
+    for i in path:
+        s = s.native_scripts[i]
+    return s
+
+
+def seq_native(c, prog):
+    s = mk_native(c['s'])
+    if c['origin'] == 'decoded':
+        s = NativeScript.from_cbor(s.to_cbor())
+    init = s.to_cbor().hex()
+    steps = prog['steps']
+    for o in c['ops']:
+        st = {}
+        t = o[0]
+        prog['op'] = t
+        prog['copied'] = prog['copied'] or t == 'copy'
+        if t == 'read':
+            st['cont'] = TransactionWitnessSet(native_scripts=[s]).to_cbor().hex()
+            st['obs'] = (s.hash() if o[1] == 0 else script_hash(s)).payload.hex()
+        elif t == 'n_append':
+            _n_node(s, o[1]).native_scripts.append(mk_native(o[2]))
+        elif t == 'n_child':
+            _n_node(s, o[1]).native_scripts[o[2]] = mk_native(o[3])
+        elif t == 'n_set_n':
+            _n_node(s, o[1]).n = o[2]
+        elif t == 'n_set_slot':
+            nd = _n_node(s, o[1])
+            if isinstance(nd, InvalidBefore):
+                nd.before = o[2]
+            else:
+                nd.after = o[2]
+        elif t == 'n_set_kh':
+            _n_node(s, o[1]).key_hash = VerificationKeyHash(H(o[2]))
+        elif t == 'reenc':
+            s = NativeScript.from_cbor(s.to_cbor())
+        elif t == 'copy':
+            s = _copy.deepcopy(s)
+        else:
+            raise ValueError(t)
+        st['after'] = s.to_cbor().hex()
+        steps.append(st)
+    return {'init': init, 'steps': steps}
+
+
+def seq_datum(c, prog):
+    d = mk_typed(c['d'])
+    if c['origin'] == 'decoded':
+        d = type(d).from_cbor(d.to_cbor())
+    init = d.to_cbor().hex()
+    steps = prog['steps']
+    for o in c['ops']:
+        st = {}
+        t = o[0]
+        prog['op'] = t
+        prog['copied'] = prog['copied'] or t == 'copy'
+        if t == 'read':
+            st['cont'] = TransactionWitnessSet(plutus_data=[d]).to_cbor().hex()
+            st['obs'] = (datum_hash(d) if o[1] == 0 else d.hash()).payload.hex()
+        elif t == 'd_set':
+            nd = d
+            for a in o[1]:
+                nd = getattr(nd, a)
+            setattr(nd, o[2], H(o[3]) if o[2] == 'b' else o[3])
+        elif t == 'reenc':
+            d = type(d).from_cbor(d.to_cbor())
+        elif t == 'copy':
+            d = _copy.deepcopy(d)
+        else:
+            raise ValueError(t)
+        st['after'] = d.to_cbor().hex()
+        steps.append(st)
+    return {'init': init, 'steps': steps}
+
+
+def h_seq(c):
+    prog = {'steps': [], 'op': 'init', 'copied': False}
+    try:
+        return {'body': seq_body, 'aux': seq_aux, 'native': seq_native, 'datum': seq_datum}[c['kind']](c, prog)
+    except Exception as e:
+        # an exception in the middle of a life; the harness decides (by operation and kind) whether it is a documented
+        # exclusion (decoding failed: C01/C03; a deep copy that lost its OrderedSet elements) or a failure of the run
+        import traceback
+        return {'seq_err': err_kind(e), 'at': len(prog['steps']), 'op': prog['op'], 'copied': prog['copied'],
+                'detail': f'{type(e).__name__}: {e}'[:300], 'tb': traceback.format_exc()[-1200:]}
+
+
+HANDLERS = {'seq': h_seq, 'tx': h_tx, 'datum': h_datum, 'aux': h_aux, 'build': h_build, 'key': h_key, 'native': h_native,
             'plutus': h_plutus, 'addr': h_addr, 'finger': h_finger, 'gate': h_gate}
 
 
